@@ -2,7 +2,7 @@
 from common import *
 import schema
 
-THEOREMS = []
+THEOREMS = ['write_len', 'writeList_len', 'len_eq_write', 'write_eq_len', 'fail_iff', 'announced_eq_written', 'intOK_of_inRange', 'encUnsigned_len', 'encSigned_len', 'os_len', 'length_write_spec', 'write_prim', 'write_cons_ber', 'write_cons_der', 'write_cons_cer', 'write_seq', 'write_octetString_der', 'write_wrapped', 'cer_unimplemented', 'captured_incompatible', 'write_ok_spec', 'spec_some_write']
 RULE = ("random encoder trees built from the REAL combinators (tuples of arity 1-12, Option, Vec, slices, Iter, Slice, Choice2/3, Constructed, "
         "explicit, sequence/set[_as], Captured, OctetString / BitString / slice encoders, encode_wrapped, Nothing) with leaves of every type and "
         "sizes crossing 127/128, 255/256, 65535/65536 at depth <= 4, 3 modes. Oracles: reported encoded_len == number of octets written "
@@ -78,5 +78,5 @@ def nontrivial(req, ans):
     return ans.startswith("ok len=") and " C " in req
 
 LEVEL = "proof"
-LEVEL_TEXT = "see THEOREMS"
-LEVEL_NOTE = ""
+LEVEL_TEXT = ("Lean 4 theorems for EVERY encoder composition (the inductive Enc: primitive, constructed/explicit/sequence/set, tuples/vec/slice/iter, Option, Choice, Nothing, Captured, octet-string, octet-slice, wrapping and bit-slice encoders), all three modes and every nesting depth, by mutual structural induction over the two INDEPENDENTLY modelled methods: the length announced by encoded_len is exactly the number of octets write_encoded writes, and both fail together with the same documented panic (write_len, len_eq_write, write_eq_len, fail_iff, announced_eq_written - the integer leaves only need to hold values of their Rust type: encUnsigned_len, encSigned_len, intOK_of_inRange); what is written is identifier ++ minimal definite length ++ content for primitives and BER/DER constructed values, identifier 80 content 00 00 for CER constructed values, and the concatenation of the parts in order for every sequence-like combinator (write_prim, write_cons_ber/der/cer, write_seq, length_write_spec); below 2^32 octets the writer equals the reference encoder lean/Bcder/Spec/Encode.lean (write_ok_spec, spec_some_write). Correspondence: random encoder trees of depth <= 6 with every combinator wrapped in every mode, length boundaries 127/128/255/256/65535/65536, compared octet-for-octet with the real combinators.")
+LEVEL_NOTE = ("Trusted: Lean 4.33 kernel; axioms propext, Classical.choice, Quot.sound only; the hand-written model (lean/Bcder/Model/Encode.lean: encoded_len and write_encoded modelled separately) tied to /repo on every run by differential correspondence through the REAL combinators. Documented caller misuse on which both methods panic alike: string encoders in CER (unimplemented), captured data of an incompatible mode, content of 2^32 octets or more. The equation encInt = minimal two's complement is C14's and enters only the reference-encoder theorems as a decidable hypothesis.")
